@@ -2,7 +2,7 @@ import Nervus.Driver.Util
 import Nervus.Model.Depth
 /-! crash stream (C16): the Lean side of harness/src/streams/crash.rs.  The model's only prediction is about nesting:
     without a depth limit, nesting far beyond what any stack holds aborts the process. -/
-namespace Nervus.Driver.CrashStream
+namespace Nervus.Driver.HostCrashStream
 open Nervus Nervus.Depth Nervus.Driver
 
 def kinds : List String := ["paren", "list", "not", "neg", "plus", "and", "prop", "fn", "case", "sub", "foreach"]
@@ -37,4 +37,4 @@ def step (_ : Unit) (ws : List String) : Unit × String × String × String :=
 
 def stream : Stream := { σ := Unit, init := (), step := step }
 
-end Nervus.Driver.CrashStream
+end Nervus.Driver.HostCrashStream
